@@ -163,6 +163,10 @@ def to_seq(eng, st, v):
             r = s.objs[v.oid]
             return VTuple([wrap(z3.Select(c, i), k) for c, k in zip(r["cols"], r["kinds"])])
         return VSeq(st.objs[v.oid]["len"], tget, tag="tlist", src=v)
+    if isinstance(v, VObj) and v.kind == "list" and st.objs[v.oid].get("items") is not None:
+        # a list display that received non-scalar elements (tuples, containers) by append: concrete items, see list_append
+        return VSeq(z3.IntVal(len(st.objs[v.oid]["items"])), lambda s, i, v=v: s.objs[v.oid]["items"][_conc_index(i)],
+                    known_len=len(st.objs[v.oid]["items"]), tag="pylist")
     if isinstance(v, VObj) and v.kind == "list":
         rec = st.objs[v.oid]
         n = rec["len"]
@@ -433,6 +437,15 @@ def list_append(eng, st, l, val):
     rec = st.objs[l.oid]
     n, e = rec["len"], rec["elem"]
     vk = value_kind(val)
+    if vk is None and isinstance(val, (VTuple, VObj)) and (rec.get("items") is not None or (
+            z3.is_int_value(z3.simplify(n)) and z3.simplify(n).as_long() == 0)):
+        # an (up to now empty) list display receives a NON-SCALAR element (a tuple, a container): from now on the list is kept as
+        # the concrete sequence of its items (`items`, like a heterogeneous literal); `len` stays the concrete length, so that
+        # truthiness and len() need nothing new; reading `elem` of such a list is not possible (ekind 'items')
+        items = tuple(rec.get("items") or ()) + (val,)
+        return [("ok", st.updobj(l.oid, items=items, len=z3.IntVal(len(items)), ekind="items"), NONE)]
+    if rec.get("items") is not None:
+        raise Unsupported("scalar appended to a list of non-scalar items")
     if vk is not None and sort_of(vk) != e.sort().range() and z3.is_int_value(z3.simplify(n)) and z3.simplify(n).as_long() == 0:
         # an empty list literal takes its element kind from the first element
         st = st.updobj(l.oid, ekind=vk, elem=z3.K(I, _default(vk)))
